@@ -8,6 +8,12 @@ bind  : spec -> code : every final state TLC reaches (record x filter x tag x fi
         code -> spec : a covering subset of the states (every configuration, every distinct model outcome in it) is
                        run through `call`, `call-exact` and `call-pedigree` in-process on the repo's BAMs; every output
                        record (ALT, REFMASKED, FILTER, AFPRIOR, GT, AFP, GP) is validated by TraceAlleleFilter.tla.
+edge  : AlleleFilterExact.tla states the same semantics over numbers exactly as the text spells them (BigNat digits +
+        decimals); AlleleFilterEdge.tla enumerates records whose values / thresholds sit at the edges of the number line
+        (0, 2^-149, 1e-12, 1e-7, 2e-7, neighbours of 0.5 and 0.0625 in the 7th..10th decimal, 2^24+1, 2^31-1; Float and
+        Integer fields; all seven operators incl. exact equality) and checks UnitsAgree (exact model = unit model wherever
+        both apply) and the order laws.  Every state the formats can carry faithfully (c16edge.admissible) is replayed
+        into from_variant_record; a covering subset goes through the programs as `exact` trace events.
 """
 import copy
 import json
@@ -20,6 +26,7 @@ sys.path.insert(0, os.path.dirname(os.path.abspath(__file__)))
 from vlib import env, tlc, pool, vcfgen, vcftext
 from vlib.report import Check
 from vlib.compare import close_prob
+import c16edge as E
 
 SPEC = os.path.join(env.SPEC, "AlleleFilter")
 SITE = "LocusPrior.from_variant_record"
@@ -79,7 +86,19 @@ def config_key(c):
 
 
 def outcome_class(s):
-    return (tuple(s["kept"]), s["masked"], tuple(Fraction(x, s["den"]) if s["den"] else None for x in s["w"]), s["outcome"])
+    return (tuple(s["kept"]), s["masked"], tuple(Fraction(x, s["den"]) if s["den"] else None for x in s["w"]), s["outcome"],
+            altless_dot(s["c"]))
+
+
+def altless_dot(c):
+    """record without ALT whose A-length filter field is written '.' (what `mchap assemble` prints for REF-only loci)"""
+    return c["n"] == 1 and c["fld"] == "AF" and c["hasAF"]
+
+
+def abort_key(site, c, error):
+    if altless_dot(c):
+        return {"site": site, "shape": "altless-A-field-dot", "error": error}
+    return {"site": site, "tag_type": c.get("rfType", c.get("ty", "-")) if c["tag"] == "RF" else "-", "error": error}
 
 
 # ----------------------------------------------------------------------------
@@ -144,10 +163,14 @@ def main():
                              key={"model": "AlleleFilter", "cfg": cfg})
             states.extend(r.printed)
         killed = 0
-        for cfg, inv in (("Mutant_afshift.cfg", "AltRemovedIffFails"), ("Mutant_geq.cfg", "AltRemovedIffFails"),
-                         ("Mutant_maskweight.cfg", "StepwiseMatchesDeclarative")):
-            m = tlc.run(SPEC, "AlleleFilter", cfg)
-            if m.violated != inv:
+        for mod, cfg, inv in (("AlleleFilter", "Mutant_afshift.cfg", "AltRemovedIffFails"),
+                              ("AlleleFilter", "Mutant_geq.cfg", "AltRemovedIffFails"),
+                              ("AlleleFilter", "Mutant_maskweight.cfg", "StepwiseMatchesDeclarative"),
+                              # numbers compared after dropping the decimals beyond the 6th / without the decimal point
+                              ("AlleleFilterEdge", "Mutant_edge_trunc6.cfg", "UnitsAgree"),
+                              ("AlleleFilterEdge", "Mutant_edge_mantissa.cfg", "Assumption")):
+            m = tlc.run(SPEC, mod, cfg)
+            if not (m.violated == inv or (inv == "Assumption" and m.violated and "Assumption" in m.violated)):
                 ck.machinery_failure("mutant spec %s not killed (%s)" % (cfg, m.violated))
             killed += 1
         ck.note("mutant_specs_killed", killed)
@@ -222,7 +245,7 @@ def main():
                 aborted[(tagtype, o["etype"])] = aborted.get((tagtype, o["etype"]), 0) + 1
                 PV("aborted", dict(inst, error=o["error"],
                                              model={"alts_kept": s["kept"], "masked": s["masked"], "weights": s["w"], "outcome": s["outcome"]}),
-                             key={"site": SITE, "tag_type": tagtype, "error": o["etype"]})
+                             key=abort_key(SITE, c, o["etype"]))
                 continue
             want_alts = [ALTS[k - 2] for k in s["kept"] if k > 1]
             if o["alts"] != want_alts or o["ref"] != REF:
@@ -324,7 +347,7 @@ def main():
         for i in chosen:
             s = states[i]
             c = {k: v for k, v in s["c"].items() if k not in ("setRF", "setAF")}
-            ev = {"c": c, "prog": prog, "crashed": crashed, "missing": False, "out": empty_out()}
+            ev = {"c": c, "exact": False, "prog": prog, "crashed": crashed, "missing": False, "out": empty_out()}
             if not crashed:
                 r = recs.get("S%d" % i)
                 if r is None:
@@ -365,6 +388,10 @@ def main():
     ck.note("cli_runs", len(cli))
     ck.note("program_runs", len(runs))
     ck.note("program_runs_aborted", {"%s/%s" % k: v for k, v in run_aborts.items()})
+    ph.mark("edge")
+    edge_events, edge_meta = edge_regime(ck, wdir, rnd)
+    events += edge_events
+    meta += edge_meta
     ph.mark("golden+trace")
     # the repo's own mock input with the options used by its tests (thousandths as the common unit)
     gold_events, gold_meta = golden_events(ck)
@@ -382,11 +409,188 @@ def main():
     ck.exhaustive = True
     ck.assumptions = [
         "TLC and the CommunityModules Json/IOUtils operators are correct",
-        "values and thresholds are integers or dyadic rationals (text, float32 and float64 agree); non-dyadic boundaries are not generated",
+        "values and thresholds are integers or dyadic rationals (text, float32 and float64 agree), or (edge regime) decimal texts "
+        "whose order against the threshold survives the single-precision storage of INFO Float values (c16edge.admissible); "
+        "non-dyadic boundaries such as RF=0.3 against 'RF>=0.3' are not generated",
         "records with individually missing INFO entries or without the frequency tag are outside the stated clauses and not generated",
         "program level: a covering subset of states (every configuration in thorough; every distinct model outcome per configuration) on the repo's three tetraploid BAMs",
     ]
     ck.finish()
+
+
+# ----------------------------------------------------------------------------
+# the edges of the number line (AlleleFilterExact / AlleleFilterEdge)
+# ----------------------------------------------------------------------------
+def edge_header(ty, samples=()):
+    return header(ty, ty, samples)
+
+
+def edge_record(s, rid, variant):
+    x, ty = s["x"], s["ty"]
+    info = []
+    if x["refmasked"]:
+        info.append(("REFMASKED", True))
+    if x["hasRF"]:
+        info.append(("RF", [E.value_text(q, variant + j, ty) for j, q in enumerate(x["rf"])]))
+    if x["hasAF"]:
+        info.append(("AF", [E.value_text(q, variant + j, ty) for j, q in enumerate(x["af"])]))
+    return vcfgen.record("CHR1", 6, REF, ALTS[: x["n"] - 1], info=info, id=rid, filt=".")
+
+
+def edge_filter(s, variant):
+    x = s["x"]
+    return "%s%s%s" % (x["fld"], x["op"], E.thr_text(x["thr"], variant))
+
+
+def edge_regime(ck, wdir, rnd):
+    tier = ck.tier
+    try:
+        r = tlc.run(SPEC, "AlleleFilterEdge", "MC_edge_quick.cfg" if tier == "quick" else "MC_edge_thorough.cfg",
+                    timeout=3000, keep_stdout=False)
+    except tlc.TLCError as e:
+        ck.machinery_failure(str(e))
+    ck.add_tlc(r, "AlleleFilterEdge")
+    if r.violated:
+        PV("model", {"module": "AlleleFilterEdge", "invariant": r.violated, "text": r.error_text[:1500]},
+           key={"model": "AlleleFilterEdge"})
+        return [], []
+    seen, states = set(), []
+    for s in r.printed:
+        s["x"] = {k: v for k, v in s["x"].items() if k not in ("setRF", "setAF")}
+        k = json.dumps([s["x"], s["ty"]], sort_keys=True)
+        if k not in seen:
+            seen.add(k)
+            states.append(s)
+    for s in states:
+        if not E.agrees(s):
+            ck.machinery_failure("edge: BigNat model and rational recomputation disagree on %s" % json.dumps(s)[:600])
+    adm = [s for s in states if E.state_admissible(s)]
+    ck.note("edge_states", len(states))
+    ck.note("edge_states_carried_faithfully", len(adm))
+    # every (value, operator, threshold) triple decided by the model, by verdict
+    triples = {}
+    for s in adm:
+        x = s["x"]
+        for q in E.tested(x):
+            holds = E._OPS[x["op"]](E.frac(q), E.frac(x["thr"]))
+            triples[(s["ty"], E.plain(q), x["op"], E.plain(x["thr"]))] = holds
+    ck.note("edge_triples", {"total": len(triples), "holding": sum(1 for v in triples.values() if v),
+                             "equal_value_and_threshold": sum(1 for k in triples if Fraction(k[1]) == Fraction(k[3]))})
+
+    # ---- spec -> code: from_variant_record ----
+    tasks, tidx = [], []
+    for ty in ("Float", "Integer"):
+        idxs = [i for i, s in enumerate(adm) if s["ty"] == ty]
+        for a in range(0, len(idxs), 400):
+            sub = idxs[a:a + 400]
+            text = edge_header(ty) + "".join(edge_record(adm[i], "E%d" % i, i) for i in sub)
+            items = [{"tag": None if adm[i]["x"]["tag"] == "none" else "RF", "filter": edge_filter(adm[i], i)} for i in sub]
+            tasks.append({"op": "prior", "dir": wdir, "text": text, "items": items})
+            tidx.append(sub)
+    res = pool.map_tasks("impl.c16", tasks, mode="jit", warm_first=False)
+    for sub, rr in zip(tidx, res):
+        if not rr["ok"]:
+            ck.machinery_failure("edge prior worker: %s" % rr["error"])
+        for i, o in zip(sub, rr["result"]):
+            s = adm[i]
+            x = s["x"]
+            ck.evaluations += 1
+            mf = E.model_freqs(s)
+            if len(s["kept"]) < x["n"] or s["masked"] or mf is None or any(q == 0 for q in mf):
+                ck.nontrivial += 1
+            inst = {"record": edge_record(s, "E%d" % i, i).strip(), "filter": edge_filter(s, i),
+                    "prior_frequencies": None if x["tag"] == "none" else "RF", "field_type": s["ty"], "cluster": s["cl"]}
+            reg = "edge:" + s["cl"]
+            if "error" in o:
+                PV("aborted", dict(inst, error=o["error"], model={"alts_kept": s["kept"], "masked": s["masked"], "outcome": s["outcome"]}),
+                   key=dict(abort_key(SITE, dict(x, ty=s["ty"]), o["etype"]), regime=reg))
+                continue
+            want_alts = [ALTS[k - 2] for k in s["kept"] if k > 1]
+            if o["alts"] != want_alts or o["ref"] != REF:
+                PV("alts", dict(inst, impl=o["alts"], model=want_alts),
+                   key={"site": SITE, "field": "alts", "fld": x["fld"], "op": x["op"], "regime": reg})
+            if o["mask"] != s["masked"]:
+                PV("mask", dict(inst, impl=o["mask"], model=s["masked"]),
+                   key={"site": SITE, "field": "mask", "fld": x["fld"], "op": x["op"], "regime": reg})
+            if mf is None:
+                okf = len(o["freq"]) == len(s["w"]) and all(v is None for v in o["freq"])
+            else:
+                okf = len(o["freq"]) == len(mf) and all(E.freq_close(v, q, s["ty"]) for v, q in zip(o["freq"], mf))
+            if not okf:
+                PV("frequencies", dict(inst, impl=o["freq"], model=None if mf is None else [str(q) for q in mf]),
+                   key={"site": SITE, "field": "frequencies", "tag": x["tag"], "regime": reg})
+    ck.traces += len(adm)
+    ck.sample({"kind": "edge-state", "state": adm[len(adm) // 2], "record": edge_record(adm[len(adm) // 2], "E", 0).strip(),
+               "filter": edge_filter(adm[len(adm) // 2], 0)})
+
+    # ---- code -> spec: the programs on a covering subset ----
+    byconf = {}
+    for i, s in enumerate(adm):
+        x = s["x"]
+        if E.milli_safe(s):
+            byconf.setdefault((s["cl"], s["ty"], x["op"], x["fld"], E.plain(x["thr"]), x["tag"]), []).append(i)
+    confs = sorted(byconf)
+    if tier == "quick":
+        # every (cluster, field type, operator) once; field kind and threshold rotate within it
+        groups = {}
+        for k in confs:
+            groups.setdefault(k[:3], []).append(k)
+        pick = []
+        for n, (g, ks) in enumerate(sorted(groups.items())):
+            ks.sort()
+            pick.append(ks[(n * 5 + 1) % len(ks)])
+        confs = pick
+    runs, lines = [], {}
+    for ci, k in enumerate(confs):
+        classes = {}
+        for i in byconf[k]:
+            s = adm[i]
+            classes.setdefault((tuple(s["kept"]), s["masked"], tuple(s["usable"]), s["x"]["n"] == 1 and s["x"]["hasAF"]), []).append(i)
+        chosen = sorted(rnd.choice(idxs) for _, idxs in sorted(classes.items(), key=lambda kv: str(kv[0])))
+        s0 = adm[chosen[0]]
+        path = os.path.join(wdir, "edge-%d.vcf" % ci)
+        for i in chosen:
+            lines[(path, i)] = edge_record(adm[i], "E%d" % i, i + ci)
+        with open(path, "w") as fh:
+            fh.write(edge_header(s0["ty"]) + "".join(lines[(path, i)] for i in chosen))
+        fstr = edge_filter(s0, ci)
+        extra = ["--filter-input-haplotypes", fstr] + (["--prior-frequencies", "RF"] if s0["x"]["tag"] == "RF" else [])
+        report = ["AFPRIOR", "AFP", "GP"] if ci % 3 == 0 else ["AFPRIOR", "AFP"]
+        progs = ["call", "call-exact", "call-pedigree"] if tier == "thorough" and ci % 4 == 0 else \
+            ["call-exact"] + ([["call", "call-pedigree"][(ci // 2) % 2]] if ci % 2 == 0 else [])
+        for prog in progs:
+            argv = ["--bam"] + BAMS + ["--ploidy", str(PLOIDY), "--haplotypes", path, "--report"] + report + extra
+            if prog != "call-exact":
+                argv += ["--mcmc-steps", "80", "--mcmc-burn", "40", "--mcmc-seed", str(1 + ck.seed)]
+            if prog == "call-pedigree":
+                argv += ["--sample-parents", "@simple.pedigree.132.txt"]
+            runs.append((prog, argv, chosen, fstr, s0))
+    res = pool.map_tasks("impl.c16", [{"op": "program", "name": p, "argv": a} for p, a, _, _, _ in runs], mode="jit")
+    events, meta = [], []
+    for (prog, argv, chosen, fstr, s0), rr in zip(runs, res):
+        if not rr["ok"]:
+            ck.machinery_failure("edge program worker: %s" % rr["error"])
+        o = rr["result"]
+        ck.evaluations += 1
+        crashed = "error" in o
+        recs = {} if crashed else {r_.id: r_ for r_ in vcftext.parse(o["out"]).records}
+        for i in chosen:
+            s = adm[i]
+            ev = {"c": s["x"], "exact": True, "prog": prog, "crashed": crashed, "missing": False, "out": empty_out()}
+            if not crashed:
+                r_ = recs.get("E%d" % i)
+                if r_ is None:
+                    ev["missing"] = True
+                else:
+                    ev["out"] = abstract_output(r_, ck)
+            events.append(ev)
+            meta.append({"prog": prog, "filter": fstr, "prior_frequencies": None if s["x"]["tag"] == "none" else "RF",
+                         "record": lines[(argv[argv.index("--haplotypes") + 1], i)],
+                         "RF_type": s["ty"], "AF_type": s["ty"], "cluster": s["cl"], "error": o.get("error"), "chain": o.get("chain"),
+                         "line": None if crashed or ev["missing"] else recs["E%d" % i].line})
+    ck.note("edge_program_runs", len(runs))
+    ck.note("edge_program_records", len(events))
+    return events, meta
 
 
 def empty_out():
@@ -452,7 +656,7 @@ def golden_events(ck):
             if flt:
                 m = re.match(r"AFP(>=|<=|>|<|==|=|!=)([\d.]+)$", flt)
                 c.update(fld="RF", op=m.group(1), thr=vcftext.milli(m.group(2))[0])
-            ev = {"c": c, "prog": prog, "crashed": crashed, "missing": False, "out": empty_out()}
+            ev = {"c": c, "exact": False, "prog": prog, "crashed": crashed, "missing": False, "out": empty_out()}
             if not crashed:
                 rr_ = recs.get(r.id)
                 if rr_ is None:
@@ -487,12 +691,13 @@ def validate(ck, events, meta):
             e, m = events[p["reject"] - 1], meta[p["reject"] - 1]
             c = e["c"]
             if p["clause"] == "RunAborted":
-                tagtype = c["rfType"] if c["tag"] == "RF" else "-"
                 root = (m.get("chain") or [m.get("error") or "?"])[-1].split(":")[0]
-                PV("aborted", m, key={"site": "program:" + e["prog"], "tag_type": tagtype, "error": root})
+                PV("aborted", m, key=abort_key("program:" + e["prog"], dict(c, rfType=m.get("RF_type", "-")), root))
             else:
-                PV("trace-reject", dict(m, clause=p["clause"], output=e["out"]),
-                             key={"site": "program:" + e["prog"], "clause": p["clause"], "fld": c["fld"], "tag": c["tag"]})
+                key = {"site": "program:" + e["prog"], "clause": p["clause"], "fld": c["fld"], "tag": c["tag"]}
+                if e["exact"]:
+                    key["regime"] = "edge:" + m.get("cluster", "?")
+                PV("trace-reject", dict(m, clause=p["clause"], output=e["out"]), key=key)
     ck.traces += len(events)
     ck.evaluations += len(events)
     ck.note("program_records_validated", len(events))
@@ -523,6 +728,14 @@ def validate(ck, events, meta):
     if b["out"]["afprior"] and b["out"]["afprior"][0] >= 0:
         b["out"]["afprior"][0] += 7
         bads.append((b, "AFPRIOR"))
+    # ... and a record of the edge regime (exact instance) that lost / regained an allele
+    gx = [e for e in good if e["exact"] and len(e["out"]["kept"]) >= 2]
+    if gx:
+        b = copy.deepcopy(gx[0]); b["out"]["kept"] = b["out"]["kept"][:-1]; bads.append((b, "AltRemovedIffFails"))
+    gx = [e for e in events if e["exact"] and not e["crashed"] and not e["missing"] and e["c"]["n"] == 3 and len(e["out"]["kept"]) == 2
+          and 2 in e["out"]["kept"]]
+    if gx:
+        b = copy.deepcopy(gx[0]); b["out"]["kept"] = [1, 2, 3]; bads.append((b, "AltRemovedIffFails"))
     tfb = os.path.join(ck.wd, "trace-corrupt.json")
     with open(tfb, "w") as fh:
         json.dump([b for b, _ in bads], fh)
